@@ -343,6 +343,15 @@ func genCase(t *rapid.T) (Case, map[string]bool) {
 			c.Ops = append(c.Ops, ops.OpSetCSel((g.Reg+adj)&63))
 			cSel = (g.Reg + adj) & 63
 			lastIncr = false
+			if rapid.IntRange(0, 3).Draw(t, "gradlike") == 0 {
+				// the same bits with a non-zero alpha: not a gradient (a gradient has
+				// alpha 0) and not premultiplied, so the path must be skipped even
+				// though the registers it names hold a perfectly valid gradient
+				gl := spec.EncodeGradientBits(g.Bits)
+				gl.A = uint8(rapid.IntRange(1, 0x7f).Draw(t, "gradlike.a"))
+				c.Ops = append(c.Ops, ops.OpSetCReg(adj, false, ops.RGBAv(gl)))
+				gs.l("gradient-looking-colour-with-alpha")
+			}
 		}
 		if adj > cSel {
 			gs.l("adj-wraps-below-0")
